@@ -3,6 +3,7 @@
 # 1. demo passes on the unchanged tree, 2. patch applies to a scratch copy of /repo (never /repo itself),
 # 3. the repository's test suite passes with the patch, 4. demo fails with the patch,
 # 5. runs the given quick checks against the patched copy and reports which ones fire.
+HERE="$(cd "$(dirname "${BASH_SOURCE[0]}")/.." && pwd)"
 set -u
 SD="$(readlink -f "$1")"; shift
 CHECKS="$*"; [ -z "$CHECKS" ] && CHECKS="all"
@@ -18,7 +19,7 @@ if [ "${SKIP_TESTS:-0}" != "1" ]; then
 fi
 caught=""
 for c in $CHECKS; do
-  out=$(cd /verif && VERIF_REPO="$D/repo" VERIF_OUT="$D/out" ./check "$c" "${TIER:-quick}" 2>&1); rc=$?
+  out=$(cd "$HERE" && VERIF_REPO="$D/repo" VERIF_OUT="$D/out" ./check "$c" "${TIER:-quick}" 2>&1); rc=$?
   if [ $rc -eq 1 ]; then caught="$caught $c"; echo "== $c FIRES"; echo "$out" | grep -E "key=" | head -3 | cut -c1-330; fi
   if [ $rc -eq 2 ]; then echo "== $c INCONCLUSIVE"; echo "$out" | grep INCONCLUSIVE | head -2 | cut -c1-300; fi
 done
